@@ -58,7 +58,8 @@ def _case(draw):
             # ScipyIVP computes accelerations and multipliers itself; the system may have been assembled without the
             # consistency solve (u_dot0, la_g0 left at zero)
             "assemble_consistent": draw(st.booleans()) if solver == "ScipyIVP" else draw(st.sampled_from([True, True, False])),
-            "dsv_linear_solver": draw(st.sampled_from(["LU", "MINRES (matrix free)"]))}
+            "dsv_linear_solver": draw(st.sampled_from(["LU", "MINRES (matrix free)"])),
+            "dsv_accelerated": draw(st.booleans())}
 
 
 def strategy(tier):
@@ -77,6 +78,7 @@ def check(spec):
     kw = {}
     if solver == "DualStormerVerlet":
         kw["linear_solver"] = spec["dsv_linear_solver"]
+        kw["accelerated"] = bool(spec.get("dsv_accelerated", True))
     if solver.startswith("Scipy"):
         kw.update(rtol=1e-8, atol=1e-10)
     try:
